@@ -1,22 +1,403 @@
-"""C04 — lane property: word-level mechanism theorems over Gen_dqstate (+ site lists) and the stress oracle."""
+"""C04 — barriers on concurrent queues exclude and order like a writer lock.
+Proof: Model/CLane.v (one concurrent lane, every dq_state rmw = the body generated from the source) +
+Proofs/CLane_*.v (invariant over all interleavings) + word-level lemmas (Lane_iface).
+Correspondence: (1) the lanes stress oracle (harness/c01_lanes.c, shared with C01-C05); (2) harness/c04_clane.c records every
+atomic operation on ONE concurrent queue object under schedule perturbation; every successful dq_state write is checked
+against the generated body of its source site inside Coq (CLaneJudge.tr_ok), the successful writes are chained by value
+(old -> new) into the exact global order of the word, and the word-level projection of the proved invariant
+(CLaneJudge.word_ok / owner_ok, sound by Properties_C04.C04_trace_judges_sound) is evaluated on every state of the chain."""
+import os
+import re
+import common
+import conc
+import driver
 import lanes
 
 PROPERTIES_FILE = "Properties/Properties_C04.v"
-COQ_DEPS = ["Proofs/Lane_iface.vo"]
+COQ_DEPS = ["Proofs/Lane_iface.vo", "Proofs/CLane_main.vo"]
 GEN_MODULES = ["Gen_dqstate", "Gen_lanesites", "Gen_once"]
 LEVEL = "proof"
+COQ_TIMEOUT = 2400
 TRUSTED = [
-    "PARTIAL: the theorems are about the dq_state transition bodies / atomic site lists translated from the source on every run "
-    "(all 2^64 words); no global invariant of the lane protocol over all interleavings is proved; the property itself is decided "
-    "on the implementation by the stress oracle reported in this evidence (exploration, not proof)",
+    "Model/CLane.v is hand-written control flow (46 program points of dispatch_sync / dispatch_barrier_sync fast and slow paths, "
+    "dispatch_[barrier_]async, the redirecting concurrent drain, _dispatch_lane_barrier_complete, _dispatch_lane_drain_non_barriers, "
+    "_dispatch_lane_drain_barrier_waiter, _dispatch_lane_non_barrier_complete) around the dq_state bodies generated from the source "
+    "(Gen_dqstate); it is tied to the library by (a) the atomic-site lists of the modelled functions (Gen_lanesites) compared "
+    "inside Coq with the model's site lists, (b) the trace check: every successful dq_state write recorded on a real queue equals "
+    "the generated body of its source site applied to the old value, and the value chain of the word satisfies the proved "
+    "word-level invariant",
+    "atomicity: an os_atomic_rmw_loop is one step (its successful compare-exchange); interleaving semantics is sequentially "
+    "consistent on the single word dq_state and the item list (memory-order strength is C05's subject)",
+    "scope of the model: one DISPATCH_QUEUE_CONCURRENT queue of width 2..4094 targeting a root queue (role BASE_ANON, redirecting "
+    "drain); not modelled: suspension (C06), target hierarchies (C03), dispatch_async_and_wait, workloops, dispatch_apply's extra "
+    "reservations (their two sites are in the trace check), override-only wakeups (max_qos only)",
+    "the plain atomic operations of the modelled functions (xor / and of IN_BARRIER, add of WIDTH_INTERVAL, xor of DIRTY) use "
+    "constants written in Model/CLane.v; the trace check compares them with the operands recorded at their source lines",
     "src2v translator (clang AST -> Gallina), validated on the functions that have differential harnesses (C06, C12, C18)",
 ]
-ASSUMPTIONS = ["the stress oracle explores the schedules the OS and the perturbation hook produce; absence of a failure there is not a proof"]
+ASSUMPTIONS = ["the stress runs explore the schedules the OS and the perturbation hook produce; the proof, not the runs, covers all "
+               "interleavings of the model",
+               "thread lock values (gettid & 0x3fffffff) are distinct and non-zero"]
+
+FILES = {1: "src/queue.c", 2: "src/inline_internal.h", 3: "src/apply.c"}
+# (function, kind of atomic operation) -> site code of CLaneJudge.tr_ok; kinds: 5 weak CAS, 6 add, 7 sub, 8 and, 10 xor
+SITES = {
+    ("_dispatch_queue_try_reserve_sync_width", 5): [1],
+    ("_dispatch_queue_try_acquire_async", 5): [2],
+    ("_dispatch_queue_reserve_sync_width", 6): [3],
+    ("_dispatch_lane_non_barrier_complete", 5): [4],
+    ("_dispatch_queue_try_acquire_barrier_sync_and_suspend", 5): [5],
+    ("_dispatch_lane_class_barrier_complete", 5): [6],
+    ("_dispatch_lane_class_barrier_complete", 10): [7],
+    ("_dispatch_lane_drain_barrier_waiter", 5): [8],
+    ("_dispatch_lane_drain_non_barriers", 8): [9],
+    ("_dispatch_lane_drain_non_barriers", 5): [10],
+    ("_dispatch_lane_drain_non_barriers", 10): [11],
+    ("_dispatch_queue_wakeup", 5): [12, 22],
+    ("_dispatch_lane_push_waiter", 5): [13, 22],
+    ("_dispatch_queue_drain_try_lock", 5): [14],
+    ("_dispatch_queue_try_upgrade_full_width", 5): [15],
+    ("_dispatch_queue_drain_try_unlock", 5): [16],
+    ("_dispatch_queue_drain_try_unlock", 10): [17],
+    ("_dispatch_lane_drain", 10): [18],
+    ("_dispatch_queue_invoke_finish", 5): [19],
+    ("_dispatch_queue_try_reserve_apply_width", 5): [20],
+    ("_dispatch_queue_relinquish_width", 7): [21],
+}
+OWNER_SITES = {6, 7, 8, 9}          # performed by the holder of IN_BARRIER: the old value must name it as the owner
+M64 = (1 << 64) - 1
+INTERVAL = 1 << 41
+
+_src_cache = {}
+
+
+def func_of(fid, line):
+    """name of the function whose body contains src line `line` of file `fid` (definitions start at column 0)"""
+    if fid not in FILES:
+        return "?"
+    if fid not in _src_cache:
+        with open(os.path.join(common.REPO, FILES[fid])) as fh:
+            _src_cache[fid] = fh.read().split("\n")
+    L = _src_cache[fid]
+    for i in range(min(line, len(L)) - 1, -1, -1):
+        m = re.match(r"^(_?dispatch_\w+)\(", L[i])
+        if m:
+            return m.group(1)
+    return "?"
+
+
+def wq(w):
+    return (w >> 41) & 0x1fff
+
+
+def new_of(e):
+    """value written by a successful atomic operation"""
+    if e.kind in (4, 5):
+        return e.b
+    if e.kind == 6:
+        return (e.a + e.b) & M64
+    if e.kind == 7:
+        return (e.a - e.b) & M64
+    if e.kind == 8:
+        return e.a & e.b
+    if e.kind == 9:
+        return e.a | e.b
+    if e.kind == 10:
+        return e.a ^ e.b
+    if e.kind == 3:
+        return e.b
+    return None
+
+
+def run_harness(seed, rounds, permille, scale, scn):
+    exe, msg = common.build_harness("c04_clane", ["c04_clane.c"], whitebox=True, extra=["-I" + common.VERIF + "/harness"])
+    if exe is None:
+        raise RuntimeError("harness build failed: " + msg)
+    r = common.run([exe, str(seed), str(rounds), str(permille), str(scale), scn], timeout=600)
+    if r.returncode != 0:
+        raise RuntimeError("harness failed rc=%s: %s" % (r.returncode, (r.stderr or "")[-1500:]))
+    return r.stdout
+
+
+def chain(writes, start):
+    """order the successful writes of one word by value: each write's old value is the previous write's new value.
+    The tickets give the search order; same-thread writes keep their program order. Returns (ordered list, error or None)."""
+    writes = sorted(writes, key=lambda w: w["seq"])
+    n = len(writes)
+    used = [False] * n
+    first_free = 0
+    order = []
+    cur = start
+    stack = []          # choice points: (len(order), cur, first_free, alternatives)
+    nxt_of_thr = {}
+
+    def cands(cur, first_free):
+        out, seen_thr = [], set()
+        i = first_free
+        while i < n and len(out) < 4 and i < first_free + 400:
+            if not used[i]:
+                w = writes[i]
+                if w["thr"] not in seen_thr:
+                    seen_thr.add(w["thr"])     # only the earliest pending write of a thread may come next
+                    if w["old"] == cur:
+                        out.append(i)
+            i += 1
+        return out
+
+    steps = 0
+    while len(order) < n:
+        steps += 1
+        if steps > 40 * n + 10000:
+            return order, "search budget exhausted after %d of %d writes" % (len(order), n)
+        c = cands(cur, first_free)
+        if not c:
+            # dead end: go back to the last choice point that has an alternative left
+            while stack and not stack[-1][3]:
+                stack.pop()
+            if not stack:
+                return order, ("no recorded write continues the value chain after %d of %d writes (word = %d): a write of the word "
+                               "was not recorded or a recorded value is wrong" % (len(order), n, cur))
+            ln, cur0, ff0, alts = stack[-1]
+            for j in order[ln:]:
+                used[j] = False
+            del order[ln:]
+            i = alts.pop(0)
+            cur, first_free = cur0, ff0
+        else:
+            i = c[0]
+            if len(c) > 1:
+                stack.append((len(order), cur, first_free, c[1:]))
+        used[i] = True
+        order.append(i)
+        cur = writes[i]["new"]
+        while first_free < n and used[first_free]:
+            first_free += 1
+    return [writes[i] for i in order], None
+
+
+def analyse(text, label, stats):
+    """returns (failures, mismatches, trcases, wordcases, ownercases) for one harness run"""
+    other, per = conc.parse_dump(text)
+    fails, mism = [], []
+    off_state = None
+    rounds = {}
+    for l in other:
+        f = l.split()
+        if f[0] == "O":
+            off_state = int(f[2])
+        elif f[0] == "R":
+            rounds[int(f[1])] = dict(W=int(f[2]), n=int(f[3]), total=int(f[4]), ran=int(f[5]), st0=int(f[6]), st1=int(f[7]),
+                                     idle=int(f[8]), overlap=int(f[9]), bad=int(f[10]), syncret=int(f[11]), maxr=int(f[12]), scn=f[13])
+    trc, wordc, ownc = [], [], []
+    for rd, R in sorted(rounds.items()):
+        key0 = "%s:round%d" % (label, rd)
+        stats["rounds"] = stats.get("rounds", 0) + 1
+        stats["items"] = stats.get("items", 0) + R["total"]
+        stats["width_%d" % R["W"]] = stats.get("width_%d" % R["W"], 0) + 1
+        stats["max_readers_together"] = max(stats.get("max_readers_together", 0), R["maxr"])
+        # ---- API-level oracle (counters kept inside the items: no timing involved)
+        if R["overlap"]:
+            fails.append({"key": key0 + ":overlap", "what": "a barrier item of a concurrent queue (width %d) overlapped another item "
+                          "%d time(s) (scenario %s)" % (R["W"], R["overlap"], R["scn"]), "label": label, "round": rd})
+        if R["bad"] or R["ran"] != R["total"]:
+            fails.append({"key": key0 + ":runs", "what": "%d of %d submitted items did not run exactly once (width %d)" % (
+                max(R["bad"], abs(R["total"] - R["ran"])), R["total"], R["W"]), "label": label, "round": rd})
+        if R["syncret"]:
+            fails.append({"key": key0 + ":syncret", "what": "%d synchronous submissions returned before their item had run" % R["syncret"],
+                          "label": label, "round": rd})
+        if not R["idle"]:
+            fails.append({"key": key0 + ":stuck", "what": "the queue (width %d) did not return to its idle dq_state after all "
+                          "submissions (final word %d): stranded work or a width leak" % (R["W"], R["st1"]), "label": label, "round": rd})
+        # ---- the writes of dq_state
+        writes = []
+        per_thr = {}
+        for thr, evs in per.items():
+            for e in evs:
+                if e.obj != rd:
+                    continue
+                per_thr.setdefault(thr, []).append(e)
+                if e.kind >= 100 or e.off != off_state or e.size != 8:
+                    continue
+                if e.kind in (1, 11) or (e.kind in (4, 5) and not (e.ok & 1)):
+                    stats["dq_state_loads_and_failed_cas"] = stats.get("dq_state_loads_and_failed_cas", 0) + 1
+                    continue
+                nv = new_of(e)
+                fid, ln = divmod(e.line, 100000)
+                fn = func_of(fid, ln)
+                writes.append({"seq": e.seq, "thr": thr, "tid": e.tid, "old": e.a, "new": nv, "kind": e.kind, "fn": fn,
+                               "line": "%s:%d" % (FILES.get(fid, "?"), ln), "e": e})
+        ordered, err = chain(writes, R["st0"])
+        if err:
+            mism.append({"what": "dq_state value chain broken", "detail": {"label": label, "round": rd, "error": err}})
+        elif ordered and ordered[-1]["new"] != R["st1"]:
+            mism.append({"what": "dq_state value chain does not end in the final word",
+                         "detail": {"label": label, "round": rd, "last": ordered[-1]["new"], "final": R["st1"]}})
+        stats["dq_state_writes"] = stats.get("dq_state_writes", 0) + len(writes)
+        W = R["W"]
+        for w in writes:
+            codes = SITES.get((w["fn"], w["kind"]))
+            stats["site:%s/%s" % (w["fn"], conc.KIND_NAMES.get(w["kind"], w["kind"]))] = \
+                stats.get("site:%s/%s" % (w["fn"], conc.KIND_NAMES.get(w["kind"], w["kind"])), 0) + 1
+            if codes is None:
+                mism.append({"what": "a successful dq_state write at a source site the model does not have",
+                             "detail": {"label": label, "round": rd, "site": w["line"], "function": w["fn"],
+                                        "op": conc.KIND_NAMES.get(w["kind"]), "old": w["old"], "new": w["new"]}})
+                continue
+            d = wq(w["old"]) - wq(w["new"])
+            ks = []
+            for k in (d, d + W - 1, d - (W - 1), -d, wq(w["old"]) - (4096 - W), wq(w["old"]) - 4096, W, 0, 1,
+                      ((w["old"] - w["new"]) & M64) >> 41, ((w["new"] - w["old"]) & M64) >> 41):
+                if 0 <= k <= 4096 and k not in ks:
+                    ks.append(k)
+            self_lock = w["tid"] & 0x3fffffff
+            trc.append({"codes": codes, "W": W, "self": self_lock, "old": w["old"], "new": w["new"], "ks": ks,
+                        "info": {"label": label, "round": rd, "site": w["line"], "function": w["fn"], "old": w["old"], "new": w["new"],
+                                 "width": W}})
+            if codes[0] in OWNER_SITES:
+                ownc.append({"w": w["old"], "self": self_lock, "info": {"label": label, "round": rd, "site": w["line"],
+                                                                         "function": w["fn"], "old": w["old"]}})
+        if not err:
+            wordc.append({"W": W, "words": [R["st0"]] + [w["new"] for w in ordered], "info": {"label": label, "round": rd}})
+        # ---- per-thread: what a thread does to the word right after one of its items
+        write_ids = {id(w["e"]): w for w in writes}
+        for thr, evs in per_thr.items():
+            pending = None
+            for e in evs:
+                if e.kind == 103:                       # callout end: a = ticket, b = kind of item
+                    pending = (int(e.b), int(e.a)) if e.b in (0, 1) else None
+                elif e.kind == 102:
+                    pending = None
+                elif pending and id(e) in write_ids:
+                    w = write_ids[id(e)]
+                    kind_item, ticket = pending
+                    pending = None
+                    if kind_item == 0:
+                        stats["reader_followed_by_non_barrier_complete"] = stats.get("reader_followed_by_non_barrier_complete", 0) + 1
+                        if w["fn"] != "_dispatch_lane_non_barrier_complete":
+                            mism.append({"what": "after a non-barrier item the thread's next write of dq_state is not "
+                                         "_dispatch_lane_non_barrier_complete", "detail": {"label": label, "round": rd,
+                                         "ticket": ticket, "site": w["line"], "function": w["fn"]}})
+                    else:
+                        stats["barrier_followed_by_owner_write"] = stats.get("barrier_followed_by_owner_write", 0) + 1
+                        ownc.append({"w": w["old"], "self": w["tid"] & 0x3fffffff,
+                                     "info": {"label": label, "round": rd, "site": w["line"], "function": w["fn"], "old": w["old"],
+                                              "after_barrier_item": ticket}})
+    return fails, mism, trc, wordc, ownc
+
+
+def coq_judge(ctx, trc, wordc, ownc):
+    """evaluates the judges inside Coq; returns list of mismatches"""
+    mism = []
+    imports = ["Word", "Gen_consts", "Gen_dqstate", "DqFields", "CLane", "CLaneJudge"]
+
+    def zl(xs):
+        return "[" + "; ".join(str(x) for x in xs) + "]"
+    # (i) transitions: first code of each case; the cases that fail are tried again with their alternative codes
+    todo = [(i, 0) for i in range(len(trc))]
+    rnd = 0
+    while todo:
+        nxt = []
+        for c0 in range(0, len(todo), 4000):
+            part = todo[c0:c0 + 4000]
+            body = "Definition cases : list (list Z) := [\n" + ";\n".join(
+                zl([trc[i]["codes"][j], trc[i]["W"], trc[i]["self"], trc[i]["old"], trc[i]["new"]] + trc[i]["ks"]) for i, j in part) + "].\n"
+            body += "Eval vm_compute in failing tr_case cases 0.\n"
+            ok, vals, raw = driver.coq_eval("c04_tr_%d_%d" % (rnd, c0), imports, body, timeout=900)
+            if not ok or len(vals) != 1:
+                raise RuntimeError("coq evaluation of the transition judge failed: " + raw[-1500:])
+            for k in driver.ints(vals[0]):
+                i, j = part[k]
+                if j + 1 < len(trc[i]["codes"]):
+                    nxt.append((i, j + 1))
+                else:
+                    mism.append({"what": "a recorded dq_state transition is not what the generated body of its source site computes "
+                                 "(CLaneJudge.tr_ok, site code %s)" % trc[i]["codes"], "detail": trc[i]["info"]})
+        todo = nxt
+        rnd += 1
+    # (ii) the word chain and the owner words
+    if wordc:
+        body = ""
+        for n, c in enumerate(wordc):
+            body += "Definition w%d : list Z := %s.\n" % (n, zl(c["words"]))
+        body += "Eval vm_compute in [%s].\n" % "; ".join("failing (word_ok %d) w%d 0" % (c["W"], n) for n, c in enumerate(wordc))
+        ok, vals, raw = driver.coq_eval("c04_words", imports, body, timeout=900)
+        if not ok or len(vals) != 1:
+            raise RuntimeError("coq evaluation of the word judge failed: " + raw[-1500:])
+        lists = re.findall(r"\[([^\[\]]*)\]", vals[0])
+        for c, l in zip(wordc, lists):
+            bad = driver.ints(l)
+            if bad:
+                d = dict(c["info"])
+                d.update({"position": bad[0], "word": c["words"][bad[0]], "width": c["W"], "violations": len(bad)})
+                mism.append({"what": "a state of the dq_state value chain violates the proved width accounting (CLaneJudge.word_ok): "
+                             "width field below its base, IN_BARRIER without the exact full width or without an owner", "detail": d})
+    if ownc:
+        body = "Definition cases : list (list Z) := [\n" + ";\n".join(zl([c["w"], c["self"]]) for c in ownc) + "].\n"
+        body += "Eval vm_compute in failing (fun c => match c with [w; t] => owner_ok w t | _ => false end) cases 0.\n"
+        ok, vals, raw = driver.coq_eval("c04_owner", imports, body, timeout=900)
+        if not ok or len(vals) != 1:
+            raise RuntimeError("coq evaluation of the owner judge failed: " + raw[-1500:])
+        for k in driver.ints(vals[0]):
+            mism.append({"what": "a thread wrote dq_state as the barrier owner (barrier completion / right after its barrier item) "
+                         "while the word did not name it as the owner with IN_BARRIER set (CLaneJudge.owner_ok)",
+                         "detail": ownc[k]["info"]})
+    return mism
+
+
+def clane_runs(ctx):
+    quick = ctx.tier == "quick"
+    plan = [("overflow", ctx.seed * 1000 + 1, 1, 0, 1)]               # fixed corpus first: the width-field overflow witness
+    nseeds = 3 if quick else 10
+    for i in range(nseeds):
+        plan.append(("mix", ctx.seed * 1000 + 10 + i, 6 if quick else 10, [0, 200, 450][i % 3], 2 if quick else 4))
+    fails, mism, trc, wordc, ownc, stats = [], [], [], [], [], {}
+    for scn, seed, rounds, pm, scale in plan:
+        text = run_harness(seed, rounds, pm, scale, scn)
+        f, m, t, w, o = analyse(text, "%s-seed%d-pm%d" % (scn, seed, pm), stats)
+        for x in f:
+            x.update({"scenario": scn, "seed": seed, "rounds": rounds, "permille": pm, "scale": scale})
+        fails += f
+        mism += m
+        trc += t
+        wordc += w
+        ownc += o
+    mism += coq_judge(ctx, trc, wordc, ownc)
+    return fails, mism, trc, wordc, ownc, stats
 
 
 def correspond(ctx):
-    return lanes.run(ctx, "C04")
+    res = lanes.run(ctx, "C04")
+    fails, mism, trc, wordc, ownc, stats = clane_runs(ctx)
+    res["failures"] = (fails + res.get("failures", []))[:20]
+    res["mismatches"] = (res.get("mismatches", []) + mism)[:20]
+    res["evaluations"] = res.get("evaluations", 0) + len(trc)
+    shapes = set((tuple(t["codes"]), t["W"], wq(t["old"]), (t["old"] >> 54) & 1, (t["old"] >> 40) & 1) for t in trc)
+    res["distinct_nontrivial"] = res.get("distinct_nontrivial", 0) + len(shapes)
+    res["traces_validated_against_impl"] = len(trc)
+    res["rule"] = res.get("rule", "") + (
+        " || trace check (harness/c04_clane.c): one concurrent queue per round, width 4094 or 2..8 (dispatch_queue_set_width on the "
+        "idle queue), 2..8 client threads with a random mix of dispatch_sync / barrier_sync / async / barrier_async / apply in four "
+        "profiles, perturbation 0/20/45 percent of atomic operations plus aimed delays after writes of dq_state; fixed corpus: the "
+        "width-overflow witness (W asyncs and 3..6 sync waiters behind a barrier, then a barrier); every successful dq_state write "
+        "(%d) is compared inside Coq with the body generated from its source site; the writes are chained by value into the exact "
+        "order of the word and CLaneJudge.word_ok is evaluated on all %d states; owner_ok on %d writes made by barrier owners; "
+        "distinct = distinct (site, width, width field, IN_BARRIER, PENDING_BARRIER) of checked transitions") % (
+            len(trc), sum(len(c["words"]) for c in wordc), len(ownc))
+    res["samples"] = res.get("samples", [])[:4] + [t["info"] for t in trc[:3]] + [t["info"] for t in trc if t["codes"][0] in (10, 15, 8)][:3]
+    dist = res.get("distribution", {})
+    dist.update(stats)
+    res["distribution"] = dist
+    return res
 
 
 def replay(ctx, obj):
-    return lanes.replay(ctx, obj)
+    rc = lanes.replay(ctx, obj)
+    for f in obj.get("failures", []):
+        if "scenario" in f and f.get("scenario") in ("mix", "overflow"):
+            print("recorded:", f.get("what"))
+            text = run_harness(f["seed"], f["rounds"], f["permille"], f["scale"], f["scenario"])
+            f2, m2, t, w, o = analyse(text, f.get("label", "replay"), {})
+            print("  re-run: %d failures, %d mismatches" % (len(f2), len(m2)))
+            for x in f2[:5]:
+                print("   ", x["what"])
+    return rc
